@@ -56,6 +56,7 @@ type Check struct {
 	ScheduleAll bool              `json:"schedule_all"`
 	Preemptions map[string]int    `json:"preemptions"`
 	QueryMs     map[string]int    `json:"query_ms"`
+	TVSkip      string            `json:"tv_skip"` // regexp of harness names excluded from translator validation (reason goes in assumptions)
 	Solver      string            `json:"solver"`
 	Fallback    string            `json:"fallback"`
 	// MaxViolations overrides the engine's per-harness cap on recorded violations (exploration
@@ -360,11 +361,21 @@ func cmdCheck(args []string) int {
 			cfgs[n] = interp.HarnessConfig{Name: n, Fn: hs[n], Unwind: ck.Unwind}
 		}
 		if !*noTV && len(names) > 0 {
+			tvNames := names
+			if ck.TVSkip != "" {
+				re := regexp.MustCompile(ck.TVSkip)
+				tvNames = nil
+				for _, n := range names {
+					if !re.MatchString(n) {
+						tvNames = append(tvNames, n)
+					}
+				}
+			}
 			k := 6
 			if *tier == "thorough" {
 				k = 32
 			}
-			tv := translatorValidate(eng, workDir, g, pkgName, names, cfgs, k, seed, *tier == "thorough", extra)
+			tv := translatorValidate(eng, workDir, g, pkgName, tvNames, cfgs, k, seed, *tier == "thorough", extra)
 			tvCompared += tv.Compared
 			tvSkipped += tv.Skipped
 			for _, m := range tv.Mismatches {
